@@ -449,6 +449,34 @@ pub fn starts() -> Vec<Start> {
         r(Cold::ScriptDataDoubleEscaped, "s", "</scrip", R::ScriptDataDoubleEscapeEnd),
         r(Cold::ScriptDataDoubleEscaped, "script", "</script", R::ScriptDataDoubleEscapeEnd),
     ]);
+    // state left behind by the raw end-tag machinery (temporary buffer) must not leak into
+    // later look-ahead: every way of leaving a raw state, then a markup declaration
+    let rn = |cold: Cold, last: &'static str, prefix: &'static str| Start {
+        cold,
+        last: Some(last),
+        prefix,
+        policy: pol(PolicyKind::AllContinue, CdataMode::Always),
+        expect: None,
+    };
+    for cold in [Cold::Rcdata, Cold::Rawtext, Cold::ScriptData, Cold::ScriptDataEscaped] {
+        for prefix in ["</a><!", "</a/><!", "</a ><!", "</a x><!", "</a/>", "</a x=", "</A/><!", "</b><!", "</ax<!", "</a/x><!"] {
+            v.push(rn(cold, "a", prefix));
+        }
+    }
+    v.push(rn(Cold::ScriptDataEscaped, "a", "<script></script><!"));
+    v.push(rn(Cold::ScriptDataEscaped, "a", "<script/></a/><!"));
+    v.push(rn(Cold::ScriptDataDoubleEscaped, "a", "</script/></a/><!"));
+    for a in [Action::Rcdata, Action::Rawtext, Action::ScriptData] {
+        for prefix in ["<a></a/><!", "<a>x</a/><!D", "<a></a/><![", "<a></a/><!DOCTYPE a PUBLI"] {
+            v.push(Start {
+                cold: Cold::Data,
+                last: None,
+                prefix,
+                policy: pol(PolicyKind::Map(vec![("a".into(), a)]), CdataMode::Always),
+                expect: None,
+            });
+        }
+    }
     v
 }
 
